@@ -558,6 +558,10 @@ func (api *API) mapDecodeMap(ctx context.Context, mapVal any, value reflect.Valu
 			return ierrors.Wrapf(err, "failed to map decode map key of type %s", keyValue.Type())
 		}
 
+		if !keyValue.Comparable() {
+			return ierrors.Errorf("map key of type %s holds a value that can not be used as a map key", keyValue.Type())
+		}
+
 		if value.MapIndex(keyValue).IsValid() {
 			// map entry already exists
 			return ierrors.Wrapf(ErrMapValidationViolatesUniqueness, "map entry with key %v already exists", keyValue.Interface())
